@@ -474,3 +474,53 @@ func TestC13Replay(t *testing.T) {
 		return c13Run(c, vstat.New(nil, "C13", ""))
 	})
 }
+
+// c13RegressionCases: inputs that exposed the 64-bit wrap of price*delta (and of
+// the idle multiplier) in the pinned tree before fix F3.
+func c13RegressionCases() []c13Case {
+	ones := [c13Dims]uint64{1, 1, 1, 1, 1}
+	next := func(el uint64) c13Op { return c13Op{Kind: "next", Elapsed: el, BumpSlot: 9, BumpAdd: ones} }
+	var cases []c13Case
+	// DESIGN example: price 2^40, usage 2^30, target 16, denominator 2
+	a := c13Case{Target: [c13Dims]uint64{16, 16, 16, 16, 16}, Denom: [c13Dims]uint64{2, 2, 2, 2, 2}, Ops: []c13Op{next(0)}}
+	for d := 0; d < c13Dims; d++ {
+		a.Init.Price[d] = 1 << 40
+		a.Init.Last[d] = 1 << 30
+	}
+	cases = append(cases, a)
+	// product wraps but the exact result is far from saturation
+	b := c13Case{Target: [c13Dims]uint64{1 << 20, 1 << 20, 1 << 20, 1 << 20, 1 << 20}, Denom: [c13Dims]uint64{8, 8, 8, 8, 8}, Ops: []c13Op{next(1), next(3)}}
+	for d := 0; d < c13Dims; d++ {
+		b.Init.Price[d] = 1<<40 + uint64(d)
+		b.Init.Win[d][5] = 1 << 30
+		b.Init.Last[d] = 1 << 29
+	}
+	cases = append(cases, b)
+	// falling with a huge target: price*(target-usage) wraps although the quotient is below the price
+	c := c13Case{Target: [c13Dims]uint64{math.MaxUint64, 1 << 63, 1 << 62, 1 << 40, 1 << 33}, Denom: [c13Dims]uint64{48, 48, 1, 2, 3}, Min: [c13Dims]uint64{100, 1, 0, 0, 0}, Ops: []c13Op{next(2), next(10), next(25)}}
+	for d := 0; d < c13Dims; d++ {
+		c.Init.Price[d] = 1 << 34
+		c.Init.Last[d] = 5
+	}
+	cases = append(cases, c)
+	// idle multiplier: (price/denom) * (elapsed/10) wraps
+	e := c13Case{Target: [c13Dims]uint64{8, 8, 8, 8, 8}, Denom: ones, Ops: []c13Op{next(160), next(1 << 40)}}
+	for d := 0; d < c13Dims; d++ {
+		e.Init.Price[d] = 1 << 60
+	}
+	cases = append(cases, e)
+	// shrunk failing case found by the check on the pinned tree
+	f := c13Case{Target: ones, Denom: ones, Ops: []c13Op{next(0)}}
+	f.Init.Price[2] = 2
+	f.Init.Last[2] = math.MaxUint64
+	cases = append(cases, f)
+	return cases
+}
+
+func TestC13Regression(t *testing.T) {
+	st := vstat.New(t, "C13", "regression: five fixed cases around the former 64-bit wrap of price*|usage-target| and of the idle multiplier (fix F3)")
+	for _, c := range c13RegressionCases() {
+		c := c
+		vstat.Run(t, st, c, func() error { return c13Run(c, st) })
+	}
+}
